@@ -65,12 +65,19 @@ def query_sequence(inst, P, interp, clone=True):
     out = []
     hexes = lambda arr: [float(x).hex() for x in np.asarray(arr, dtype=float).ravel()]
     with seams.quiet():
+        def ask(label):
+            # where the saved instance itself cannot interpolate in this state (observed: extend-split version 2 on a
+            # Lagrange grid raises KeyError for a level vector it never evaluated) the restored one has to behave alike
+            try:
+                out.append([label] + hexes(c(P)))
+            except (KeyError, ValueError, IndexError, AssertionError) as e:
+                out.append([label + "_raises", type(e).__name__])
         if interp:
-            out.append(["interpolation"] + hexes(c(P)))
+            ask("interpolation")
         r, _ = c.evaluate_final_combi()
         out.append(["final_combi"] + hexes(r))
         if interp:
-            out.append(["interpolation_after_final_combi"] + hexes(c(P)))
+            ask("interpolation_after_final_combi")
         out.append(["result"] + hexes(c.operation.get_result()))
         out.append(["points", int(c.get_total_num_points())])
     return out
@@ -218,7 +225,7 @@ class C14(Check):
         P = query_points(rk, a, b, 5)
         # __call__ raises for extend-split without boundary points (known finding of C07) and is not supported on grids
         # without points on the area boundaries (Gauss-Legendre); the restored-equals-saved clause then compares result and counts
-        interp = st != "cell" and not (st == "extend_split" and (not cfg["boundary"] or cfg.get("grid", "TrapezoidalGrid") not in ("TrapezoidalGrid", "LagrangeGrid")))
+        interp = st != "cell" and not (st == "extend_split" and (not cfg["boundary"] or cfg.get("grid", "TrapezoidalGrid") not in ("TrapezoidalGrid", "LagrangeGrid", "LagrangeGrid2")))
         # queries run on deep copies: __call__ may evaluate the integrand at further points (it does for extend-split
         # version 2), which moves the point count and hence the stop of the continued run - the statement is about
         # stop / save / restore / continue, not about queries in between
